@@ -65,10 +65,11 @@ Proof.
 Qed.
 
 (* the whole iteration over a family of sorted sources *)
-Theorem merge_sources (srcs : list (list entry)) :
+Theorem merge_sources_fuel (srcs : list (list entry)) :
   Forall ssorted srcs -> (forall k a b, mf k a b <> None) ->
   exists it, merger_iter_make None (map (fun es => mksc es 0 true BAll false) srcs) false = Some it /\
-    let out := mdrain mf (S (length (concat srcs))) it in
+    forall n, (length (concat srcs) <= n)%nat ->
+    let out := mdrain mf (S n) it in
     (* keys strictly ascending, hence each once *)
     StronglySorted (fun a b => bcmp (fst a) (fst b) = Lt) out /\
     (* exactly the keys the sources hold *)
@@ -82,12 +83,23 @@ Proof.
     rewrite Forall_forall in Hs. unfold fresh. cbn. repeat split; try reflexivity. apply Hs, Hes. }
   destruct (merger_iter_make_spec mf hk K_nil K_push K_pop K_replace K_min K_mark _ Hfresh) as (it & Hmk & Hapi & Hperm & _).
   rewrite map_map in Hperm. cbn [sc_es] in Hperm. rewrite map_id in Hperm.
-  exists it. split; [exact Hmk|]. cbn zeta.
-  destruct (drain_spec mf hk K_push K_pop K_replace K_min K_mark Htot (length (concat srcs)) it Hapi
-              ltac:(rewrite (Permutation_length Hperm); apply le_n)) as (Hv & Hk & Hsorted).
+  exists it. split; [exact Hmk|]. intros n Hn. cbn zeta.
+  destruct (drain_spec mf hk K_push K_pop K_replace K_min K_mark Htot n it Hapi
+              ltac:(rewrite (Permutation_length Hperm); exact Hn)) as (Hv & Hk & Hsorted).
   split; [exact Hsorted|]. split.
   - intros k. rewrite Hk. split; intros H; eapply Permutation_in; try exact H; apply Permutation_map; [exact Hperm|apply Permutation_sym, Hperm].
   - apply Forall_forall. intros [k v] Hin. cbn [fst snd]. destruct (Hv k v Hin) as (first & rest & Hp & Hf).
     exists first, rest. split; [|exact Hf]. rewrite <- vals_concat. eapply Permutation_trans; [exact Hp|]. apply vals_perm, Hperm.
+Qed.
+
+Theorem merge_sources (srcs : list (list entry)) :
+  Forall ssorted srcs -> (forall k a b, mf k a b <> None) ->
+  exists it, merger_iter_make None (map (fun es => mksc es 0 true BAll false) srcs) false = Some it /\
+    let out := mdrain mf (S (length (concat srcs))) it in
+    StronglySorted (fun a b => bcmp (fst a) (fst b) = Lt) out /\
+    (forall k, In k (map fst out) <-> In k (map fst (concat srcs))) /\
+    Forall (fun e => merged_value_ok mf srcs (fst e) (snd e)) out.
+Proof.
+  intros Hs Htot. destruct (merge_sources_fuel srcs Hs Htot) as (it & Hmk & H). exists it. split; [exact Hmk|]. apply H, le_n.
 Qed.
 End Closed.
